@@ -31,7 +31,7 @@ type Transport struct {
 	packetCh chan *memberlist.Packet
 	streamCh chan net.Conn
 	// Dial, if set, answers stream dials (push/pull responder); default: refuse.
-	Dial func(addr memberlist.Address) (net.Conn, error)
+	Dial  func(addr memberlist.Address) (net.Conn, error)
 	Dials []string
 }
 
@@ -184,10 +184,10 @@ func (n *Node) MLNode(name string, idx int, tags map[string]string) *memberlist.
 	}
 }
 
-func (n *Node) Delegate() memberlist.Delegate           { return n.Conf.MemberlistConfig.Delegate }
-func (n *Node) Events() memberlist.EventDelegate        { return n.Conf.MemberlistConfig.Events }
-func (n *Node) Conflict() memberlist.ConflictDelegate   { return n.Conf.MemberlistConfig.Conflict }
-func (n *Node) Ping() memberlist.PingDelegate           { return n.Conf.MemberlistConfig.Ping }
+func (n *Node) Delegate() memberlist.Delegate         { return n.Conf.MemberlistConfig.Delegate }
+func (n *Node) Events() memberlist.EventDelegate      { return n.Conf.MemberlistConfig.Events }
+func (n *Node) Conflict() memberlist.ConflictDelegate { return n.Conf.MemberlistConfig.Conflict }
+func (n *Node) Ping() memberlist.PingDelegate         { return n.Conf.MemberlistConfig.Ping }
 
 // Outbox drains every queued broadcast (intents, queries, events).
 func (n *Node) Outbox() [][]byte {
